@@ -7,6 +7,9 @@ package c18
 
 import (
 	"context"
+	"encoding/json"
+	"path/filepath"
+	"strings"
 	"crypto/rand"
 	"fmt"
 	"os"
@@ -119,6 +122,77 @@ func TestBounded(t *testing.T) {
 			got := jwkutil.Validate(k) == nil
 			if got != want {
 				fail("Validate(kty=%s, alg=%v) accepted=%v, want %v", k.KeyType(), n, got, want)
+			}
+		}
+	}
+	// LoadKey: by id, or the only key of a singleton set; whatever it returns has passed Validate
+	dir := t.TempDir()
+	writeSet := func(name string, ks ...jwk.Key) string {
+		set := jwk.NewSet()
+		for _, k := range ks {
+			set.AddKey(k)
+		}
+		b, err := json.Marshal(set)
+		if err != nil {
+			t.Fatal(err)
+		}
+		p := filepath.Join(dir, name)
+		if err := os.WriteFile(p, b, 0o600); err != nil {
+			t.Fatal(err)
+		}
+		return p
+	}
+	var variants []jwk.Key
+	for _, base := range keys {
+		for _, n := range []any{nil, jwa.PS512, jwa.ES512, jwa.EdDSA, jwa.RS256, jwa.HS512} {
+			k, _ := base.Clone()
+			k.Remove(jwk.AlgorithmKey)
+			if n != nil {
+				if err := k.Set(jwk.AlgorithmKey, n); err != nil {
+					continue
+				}
+			}
+			k.Set(jwk.KeyIDKey, fmt.Sprintf("id-%d", len(variants)))
+			variants = append(variants, k)
+		}
+	}
+	valid0 := variants[0]
+	for _, v := range variants {
+		if jwkutil.Validate(v) == nil {
+			valid0 = v
+			break
+		}
+	}
+	for i, k := range variants {
+		valid := jwkutil.Validate(k) == nil
+		single := writeSet(fmt.Sprintf("single-%d.json", i), k)
+		pair := writeSet(fmt.Sprintf("pair-%d.json", i), valid0, k)
+		for _, tc := range []struct {
+			what, path, id string
+			wantOK         bool
+		}{
+			{"only key, no id", single, "", valid},
+			{"only key, by id", single, k.KeyID(), valid},
+			{"only key, wrong id", single, "nope", false},
+			{"one of two, by id", pair, k.KeyID(), valid},
+			{"one of two, no id", pair, "", false},
+		} {
+			if strings.HasPrefix(tc.what, "one of two") && k.KeyID() == valid0.KeyID() {
+				continue // the "pair" would hold the same key twice
+			}
+			cases++
+			got, err := jwkutil.LoadKey(tc.path, tc.id)
+			if (err == nil) != tc.wantOK {
+				fail("LoadKey(%s: kty=%s alg=%v): err=%v, want success=%v", tc.what, k.KeyType(), k.Algorithm(), err, tc.wantOK)
+				continue
+			}
+			if err == nil {
+				if jwkutil.Validate(got) != nil {
+					fail("LoadKey(%s) returned a key that fails Validate", tc.what)
+				}
+				if got.KeyID() != k.KeyID() {
+					fail("LoadKey(%s) returned key %q, want %q", tc.what, got.KeyID(), k.KeyID())
+				}
 			}
 		}
 	}
